@@ -921,3 +921,9 @@ Qed.
 Example strict_fixed_rejects :
   fst (root (mkCfg 4294967296 0 true true) [[1;0;0;0;7;0;0;0; 252;255;255;255;0;0;0;0]] 4294967296) = Err.
 Proof. vm_compute. reflexivity. Qed.
+
+(* the excluded programmer-error panics, together *)
+Lemma index_panics fd fu p i exp :
+  (list_struct fd p i = Panic <-> (p_valid p = false \/ i < 0 \/ i >= p_len p)) /\
+  (primitiveElem fu p i exp = Panic <-> (p_valid p = false \/ i < 0 \/ i >= p_len p)).
+Proof. split; [exact (list_struct_panic_iff fd p i)|exact (primitiveElem_panic_iff fu p i exp)]. Qed.
